@@ -183,8 +183,9 @@ _LOGB = {}
 
 def axioms(lw, z3):
     """ground facts every real exp / log / tanh satisfies, instantiated for the atoms of this lowering:
-    positivity, landmarks, tangent lines, pairwise monotonicity, and the secant bound of log."""
+    positivity, landmarks, tangent lines, pairwise monotonicity, the functional equation, and the secant bound of log."""
     out = []
+    rv = lw.rv
     # exp and log are inverse: for an atom E = exp(R - sum_j k_j log T_j) with positive integer k_j the identity
     # E * prod_j T_j^k_j = exp(R) ties it to the atom of the log-free rest (created here if it does not exist yet)
     done = set()
@@ -237,6 +238,30 @@ def axioms(lw, z3):
             if z3.eq(b1, lw.ONE) and z3.eq(b2, lw.ONE):
                 out.append((a1 <= a2) == (v1 <= v2))
                 out.append((a1 == a2) == (v1 == v2))
+    # functional equation exp(s) * exp(t) = exp(s + t) for pairs of atoms whose arguments add up to / differ by a constant
+    # (a kernel that evaluates exp(-|x|) on one branch and exp(x) on the other computes the same function)
+    enodes = [(v, node) for (op, _), (v, node, _) in lw.atoms.items() if op == "exp"]
+    for i in range(len(enodes)):
+        for j in range(i + 1, len(enodes)):
+            (v1, n1), (v2, n2) = enodes[i], enodes[j]
+            lf1, c1 = sc.linform(n1.args[0])
+            lf2, c2 = sc.linform(n2.args[0])
+            if set(lf1) != set(lf2) or not lf1:
+                continue
+            if all(lf1[k][0] == -lf2[k][0] for k in lf1):          # s + t = c1 + c2
+                c = c1 + c2
+                if c == 0:
+                    out.append(v1 * v2 == 1)
+                elif abs(c) <= 700:
+                    lo, hi = _exp_bounds(c)
+                    out.append(z3.And(v1 * v2 >= rv(lo), v1 * v2 <= rv(hi)))
+            elif all(lf1[k][0] == lf2[k][0] for k in lf1):         # s - t = c1 - c2
+                c = c1 - c2
+                if c == 0:
+                    out.append(v1 == v2)
+                elif abs(c) <= 700:
+                    lo, hi = _exp_bounds(c)
+                    out.append(z3.And(v1 >= rv(lo) * v2, v1 <= rv(hi) * v2))
     for v, a, b in logs:       # v = log(a/b)
         t_gt = (lambda c: pm(a, b) >= pm(rv(c), pm(b, b)))     # a/b >= c  <=>  a*b >= c*b^2
         t_lt = (lambda c: pm(a, b) <= pm(rv(c), pm(b, b)))
